@@ -4,7 +4,11 @@ proof:  Properties/C07.v (loop_refines: LoopContext state machine == documented 
         every item list, sized or not, every query script; lookahead_transparent; the
         consumed ++ look-ahead ++ remaining invariant over all reachable states; else_iff_empty;
         recursive_depth)
-tie  :  T5 translator: gen/loop_translate.py turns the current source of index, first, depth, length,
+tie  :  K-gen trace: a CodeGenerator subclass records the frame operations and control lines visit_For
+        performs (harness/c07_trace.py) for generated loops in every context; the trace must equal the
+        extracted Model.LoopGen.for_trace, about which Properties/C07gen.v proves the indicator / body /
+        else-frame / frame-order / extended-loop / async-filter properties for all 256 configurations;
+        T5 translator: gen/loop_translate.py turns the current source of index, first, depth, length,
         _peek_next, __next__/__anext__, last, nextitem, previtem, revindex0, revindex, changed, cycle of
         LoopContext and of the overriding members of AsyncLoopContext into terms of Lib/PyLoop; the
         generated Gen_loop.v proves  interpreted source = model function  for every state and kind;
@@ -296,6 +300,101 @@ def first_diff(a, b):
     return f"{len(ia)} vs {len(ib)} iterations" if len(ia) != len(ib) else "?"
 
 
+def trace_tie(ctx, jinja2):
+    """K-gen for compiler.visit_For without reading generated text: the event trace recorded from a
+    CodeGenerator subclass (frames by creation order, temporaries by request order) must equal the
+    extracted Model.LoopGen.for_trace of the node's configuration"""
+    from . import c07_trace
+    srcs = c07_trace.loop_sources(ctx.rng, 0)
+    recs, lines = [], []
+    for is_async in (False, True):
+        for src in srcs:
+            store = []
+            env = jinja2.Environment(enable_async=is_async, extensions=["jinja2.ext.loopcontrols"])
+            env.code_generator_class = c07_trace.make_recorder(jinja2, store)
+            try:
+                env.from_string(src)
+            except Exception as e:  # noqa
+                ctx.reject({"via": "visit_For trace", "template": src, "async": is_async},
+                           f"compiling a generated loop raised {type(e).__name__}: {e}", "loop does not compile: " + type(e).__name__)
+                continue
+            for st in store:
+                cfgv = c07_trace.config_of(jinja2, st, is_async)
+                recs.append((src, is_async, cfgv, " ".join(st["ev"]), st["frames"]))
+                lines.append("V " + " ".join("1" if b else "0" for b in cfgv))
+    out = ctx.driver("loop", lines)
+    seen = set()
+    for (src, is_async, cfgv, real, frames), m in zip(recs, out):
+        seen.add(cfgv)
+        ctx.case(key=("trace",) + cfgv)
+        ctx.count("visit_for_trace_" + ("async" if is_async else "sync"))
+        if real != m or frames != 3:
+            case = {"via": "visit_For trace", "template": src, "async": is_async,
+                    "config(recursive,else,test,mentions,scoped,async,pilb,pbuf)": list(cfgv)}
+            ctx.model_mismatch("K-gen visit_For skeleton (recorded trace)", case, m, real, trace_oracle(src, is_async, jinja2))
+        else:
+            ctx.validated()
+    done = set()
+    for (src, is_async, cfgv, real, frames), m in zip(recs, out):
+        if cfgv[1] and (src, is_async) not in done and src.count("{% else %}E{% endfor %}") == 1 and src.count("{% else %}") == 1:
+            done.add((src, is_async))
+            else_control_probe(ctx, jinja2, src, is_async, m)
+    ctx.extra["visit_for_configs_seen"] = len(seen)
+
+
+class Item(list):
+    """an item that can be sliced, tested, printed and has children (x.c) for recursive loops"""
+    def __init__(self, vals, c=()):
+        super().__init__(vals)
+        self.c = list(c)
+
+
+TRACE_DATA = [([], []), ([Item([1])], [1]), ([Item([1, 2], [Item([3])]), Item([])], [1, 2])]
+
+
+def trace_oracle(src, is_async, jinja2):
+    """a changed skeleton is judged by behaviour: the generated loop must still compile and render
+    (the value-level judgement is done by the other streams of this check)"""
+    try:
+        env = jinja2.Environment(enable_async=is_async, extensions=["jinja2.ext.loopcontrols"])
+        t = env.from_string(src)
+        for xs, ys in TRACE_DATA:
+            (asyncio.run(t.render_async(xs=xs, ys=ys)) if is_async else t.render(xs=xs, ys=ys))
+    except Exception as e:  # noqa
+        return f"the loop no longer compiles / renders: {type(e).__name__}: {e}"
+    return None
+
+
+def else_control_probe(ctx, jinja2, src, is_async, model_trace):
+    """the in_loop_body flag of the else frame, observed by behaviour: `continue` in the else branch of the
+    loop under test is accepted exactly when the model's else frame is inside an enclosing loop body;
+    otherwise it must be a TemplateSyntaxError (never a Python SyntaxError from the generated module)"""
+    tok = [t for t in model_trace.split(" ") if t.startswith("block:else:")]
+    if not tok or "{% else %}E{% endfor %}" not in src:
+        return
+    allowed = ":ilb=1" in tok[0]
+    probe = src.replace("{% else %}E{% endfor %}", "{% else %}E{% continue %}{% endfor %}", 1)
+    env = jinja2.Environment(enable_async=is_async, extensions=["jinja2.ext.loopcontrols"])
+    case = {"via": "visit_For else frame", "template": probe, "async": is_async}
+    ctx.case(key=("else-continue", probe, is_async))
+    ctx.count("else_continue_" + ("allowed" if allowed else "rejected"))
+    try:
+        t = env.from_string(probe)
+        for xs, ys in TRACE_DATA:
+            (asyncio.run(t.render_async(xs=xs, ys=ys)) if is_async else t.render(xs=xs, ys=ys))
+        got = "ok"
+    except jinja2.TemplateSyntaxError:
+        got = "TemplateSyntaxError"
+    except Exception as e:  # noqa
+        got = type(e).__name__ + ": " + str(e)[:60]
+    want = "ok" if allowed else "TemplateSyntaxError"
+    if got != want:
+        ctx.reject(case, f"`continue` in the else branch: expected {want}, engine gives {got}",
+                   "continue in a for-else branch: " + ("rejected inside an enclosing loop" if allowed else "not a TemplateSyntaxError"))
+    else:
+        ctx.validated()
+
+
 def run(ctx):
     jinja2 = lib.use_repo_jinja()
     from jinja2.runtime import AsyncLoopContext, LoopContext, Undefined
@@ -320,6 +419,9 @@ def run(ctx):
             ctx.trusted.append("Gen_loop (LoopContext / AsyncLoopContext source = model): " + " ".join(out.split()))
     except loop_translate.Untranslatable as e:
         ctx.broken.append(f"translator gen/loop_translate.py: LoopContext source left the translatable vocabulary: {e}")
+
+    ctx.proof("C07gen")
+    trace_tie(ctx, jinja2)
 
     bounds = ctx.size({0: 0, 1: 3, 2: 2, 3: 1, 4: 1}, {0: 0, 1: 3, 2: 3, 3: 2, 4: 1, 5: 1, 6: 1})
     scripts = list(exhaustive_scripts(bounds))
